@@ -68,19 +68,34 @@ def rename(tree, path, old, new):
 
 
 def child_prog():
-  return L.prog_strategy(allow=('counter', 'stat', 'tanh', 'sow'), max_depth=1,
-                         max_ops=4, styles=('compact',)).map(
-                             lambda p: dict(p, cls='W'))
+  return L.prog_strategy(allow=('counter', 'stat', 'tanh', 'sow', 'rng'),
+                         max_depth=1,
+                         max_ops=4, styles=('compact',)).flatmap(
+                             lambda p: st.sampled_from([None, None, 'dropout',
+                                                        'noise']).map(
+                                 lambda s_: dict(
+                                     p, cls='W',
+                                     ops=list(p['ops']) + ([{
+                                         'op': 'rng', 'stream': s_}]
+                                                           if s_ else []))))
 
 
 def t_case():
   return st.tuples(
-      L.case_strategy(allow=('counter', 'stat', 'tanh'), max_depth=1,
+      L.case_strategy(allow=('counter', 'stat', 'tanh', 'rng'), max_depth=1,
                       max_ops=3, styles=('compact',)),
       child_prog(), st.integers(0, 5), st.sampled_from(L.ALL_TR),
-      st.booleans(), st.integers(1, 2),
-      st.lists(st.tuples(filter_strategy(), st.integers(0, 1)), min_size=1,
-               max_size=4))
+      st.booleans(), st.sampled_from([1, 2, 2]),
+      # history entries mostly share one filter (same module fingerprint) and
+      # differ in the child variant / input shape
+      st.tuples(filter_strategy(),
+                st.lists(st.tuples(st.one_of(st.none(), st.none(),
+                                             filter_strategy()),
+                                   st.sampled_from([0, 0, 1]),
+                                   st.integers(0, 1)), min_size=1,
+                         max_size=4)).map(
+                             lambda t: [[f if f is not None else t[0], v, b]
+                                        for f, v, b in t[1]]))
 
 
 @clause('class_transforms', strategy=t_case, quick=220, thorough=8000,
@@ -94,8 +109,9 @@ def t_case():
         'on one module instance, outputs and returned collections equal the '
         'plain program, also when a second module instance of the same '
         'transformed class with different attributes (another child program on '
-        'the same variables) is interleaved; a repeated configuration does not '
-        're-trace the jitted child; non-trivial = child has state and some filter is neither True '
+        'the same variables) and a second input shape are interleaved; a '
+        'repeated configuration returns bit-identical values (random draws '
+        'included) and does not re-trace the jitted child; non-trivial = child has state and some filter is neither True '
         'nor False, or the history has >=2 different filters')
 def class_transforms(case, ctx):
   case, child, pos, tr, named, calls, filters = case
@@ -116,7 +132,14 @@ def class_transforms(case, ctx):
   name_tr = name or (L.TR_PREFIX[tr] + 'NodeW_0')
   mp, mt = L.make_root(plain), L.make_root(trans)
   x = L.make_input(case)
-  key = jax.random.key(case['seed'])
+  # a second input shape (extra leading batch dim) for histories that force a
+  # re-trace of an already known module
+  xs = [x, jnp.stack([x, x * 0.5, x + 1.0])]
+  seed = case['seed']
+  key = {'params': jax.random.key(seed), 'dropout': jax.random.key(seed + 1),
+         'noise': jax.random.key(seed + 2)}
+  arng = {'dropout': jax.random.key(seed + 3), 'noise': jax.random.key(seed + 4)}
+  child_draws = L.uses(child, ('rng',))
   with sut('init plain'):
     yp, vp = mp.init_with_output(key, x)
   with sut(f'init {tr}'):
@@ -133,7 +156,10 @@ def class_transforms(case, ctx):
   require(sp == st_, lambda: f'init tree under {tr} differs from the plain '
           f'program beyond the transformed class name:\n plain {sorted(sp)}\n '
           f'{tr} {sorted(st_)}')
-  same_values = named and tr in ('remat', 'map_id')
+  # (map_variables(init=True) runs the body an extra time at init, so only
+  # remat is promised to reproduce the plain program's random draws)
+  same_values = named and (tr == 'remat' or (tr == 'map_id'
+                                             and not L.uses(child, ('rng',))))
   if same_values:
     require(tree_close({c: vp[c] for c in vp if c not in obs},
                        {c: vt_r[c] for c in vt_r if c not in obs}),
@@ -145,15 +171,40 @@ def class_transforms(case, ctx):
   seen_cfg = {}
   mps = [mp, L.make_root(with_child(None, 1))]
   mts = [mt, L.make_root(with_child(tr, 1))]
-  for hi, (f, variant) in enumerate(filters):
+  # random draws inside the wrapped child are only comparable with the plain
+  # program where the statement promises it (remat / map_variables with an
+  # explicit name: same scope path); otherwise they must merely be
+  # reproducible, which the repeat check below covers
+  cmp_plain = (not child_draws) or (named and tr == 'remat')
+  first_seen = {}
+  # every history ends with a repeat of its last and of its first entry, so
+  # "same configuration again after something else was traced" always occurs
+  filters = list(filters) + [filters[-1], filters[0]]
+  for hi, (f, variant, bshape) in enumerate(filters):
     mutable = build_filter(f)
+    xx = xs[bshape]
     with sut('apply plain'):
-      rp = mps[variant].apply(base_p, x, mutable=mutable)
+      rp = mps[variant].apply(base_p, xx, mutable=mutable, rngs=arng)
     cname = 'NodeW'
     n0 = L.CALLS.get(cname, 0)
     with sut(f'apply {tr}'):
-      rt = mts[variant].apply(base_t, x, mutable=mutable)
+      rt = mts[variant].apply(base_t, xx, mutable=mutable, rngs=arng)
     traced = L.CALLS.get(cname, 0) - n0
+    # the same configuration must give bit-identical results whenever it is
+    # repeated, whatever was traced in between
+    cfg_key = repr((f, variant, bshape))
+    flat_now = [np.asarray(a).tobytes() for a in jax.tree_util.tree_leaves(rt)]
+    if cfg_key in first_seen:
+      require(flat_now == first_seen[cfg_key][1], lambda: f'apply #{hi} '
+              f'repeats the configuration of apply #{first_seen[cfg_key][0]} '
+              f'(same module, variables, inputs and rngs) under {tr} but '
+              'returns different values')
+    else:
+      first_seen[cfg_key] = (hi, flat_now)
+    if not cmp_plain:
+      cfg = repr((f, variant, bshape))
+      seen_cfg.setdefault(cfg, hi)
+      continue
     if mutable is False:
       require(out_eq(rp, rt), lambda: f'apply #{hi} (mutable=False): {tr} '
               f'output differs from the plain program')
@@ -166,7 +217,7 @@ def class_transforms(case, ctx):
               f': {tr} returns collections {sorted(ut)}, plain {sorted(up)}')
       require(tree_close(up, ut), lambda: f'apply #{hi} (mutable={mutable!r})'
               f': updated collections under {tr} differ from plain')
-    cfg = repr((f, variant))
+    cfg = repr((f, variant, bshape))
     if tr in ('jit', 'jit_filter') and cfg in seen_cfg:
       require(traced == 0, lambda: f'apply #{hi}: same configuration as apply '
               f'#{seen_cfg[cfg]} but the jitted child was traced again')
@@ -175,7 +226,7 @@ def class_transforms(case, ctx):
   ctx.note(labels=[tr, 'named' if named else 'auto', f'calls{calls}',
                    'stateful' if stateful else 'stateless'],
            nontrivial=(stateful and any(f['t'] not in ('true', 'false')
-                                        for f, _ in filters))
+                                        for f, _, _ in filters))
            or len({repr(f) for f in filters}) >= 2)
 
 
